@@ -5,8 +5,10 @@ package main
 
 import (
 	"encoding/json"
+	"fmt"
 	"os"
 	"reflect"
+	"strings"
 	"time"
 
 	"github.com/unravelin/null/v5"
@@ -182,6 +184,72 @@ type WTwice struct {
 	B SInner
 }
 
+// collections of round-number sizes (a writer that splits into blocks, a reader that grows in steps)
+type WBigColl struct {
+	L []int64
+	M map[string]int32
+	Z string
+}
+
+// payloads larger than any small-buffer threshold, one record per file block
+type WBlob struct {
+	B []byte
+	S string
+	N int64
+}
+
+// byte-string map values, empty ones among non-empty ones
+type WMapBytes struct {
+	M map[string][]byte
+	L [][]byte
+}
+
+// records that end in something that takes no bytes
+type WTrailEmpty struct {
+	A int64
+	E struct{}
+}
+type WTrailEmptySlice struct {
+	A string
+	E []struct{}
+	F struct {
+		X int `json:"-"`
+	}
+}
+
+// map values wider than 128 bytes (Go maps store such values indirectly)
+type wide17 struct {
+	A, B, C, D, E, F, G, H, I, J, K, L, M, N, O, P, Q int64
+}
+type WMapWide struct {
+	M map[string]wide17
+	Z int64
+}
+
+// pointer-free records whose size is not a multiple of the word size, with optional tails
+type WOddSize struct {
+	A, B int32
+	C    int32 `json:"c,omitempty"`
+}
+type WOddSizePtr struct {
+	P *WOddSize
+	Q *struct {
+		X int16 `json:"x,omitempty"`
+		Y bool  `json:"y,omitempty"`
+		Z int16 `json:"z,omitempty"`
+	}
+}
+
+// several pointers to wrapper / time types in one record (their slots come from the same bank)
+type WPtrTimes struct {
+	A *time.Time
+	B *time.Time
+	C *null.Time
+	D *null.Time
+	E *null.String
+	F *time.Time
+}
+
 // Avro names are case-sensitive: fields whose names differ only in case are different fields
 type WCase struct {
 	Id   int64  `json:"Id"`
@@ -250,6 +318,62 @@ func witnessCases() []witness {
 		{staticOf[WMapMap]("map-map"), vals(WMapMap{map[string]map[string]int64{"a": {"x": 1}, "b": {}}})},
 		{staticOf[WCase]("case-variant-names"), vals(WCase{1, "two", 3, pi7, "five", "six"}, WCase{0, "", 9, nil, "", ""}, WCase{-1, "x", 0, pi7, "y", ""})},
 		{staticOf[WNoFields]("no-visible-fields"), vals(WNoFields{1, 2, "a"}, WNoFields{}, WNoFields{3, 4, "b"})},
+		{staticOf[WBigColl]("round-number-collections"), func(c *driverCtx) []reflect.Value {
+			var out []WBigColl
+			for _, n := range []int{1024, 4096, 4097, 8192} {
+				l := make([]int64, n)
+				for i := range l {
+					l[i] = int64(i%251 - 100)
+				}
+				m := map[string]int32{}
+				if n == 1024 || n == 4096 {
+					for i := 0; i < n; i++ {
+						m[fmt.Sprintf("k%d", i)] = int32(i)
+					}
+				}
+				out = append(out, WBigColl{L: l, M: m, Z: fmt.Sprintf("after-%d", n)})
+			}
+			return vals(out...)(c)
+		}},
+		{staticOf[WBlob]("large-payloads"), func(c *driverCtx) []reflect.Value {
+			var out []WBlob
+			for i, n := range []int{40000, 32768, 100, 33000} {
+				out = append(out, WBlob{B: payload(c.rng, n), S: strings.Repeat(string(rune('a'+i)), n+1), N: int64(i)})
+			}
+			return vals(out...)(c)
+		}},
+		{staticOf[WMapBytes]("map-bytes-empty-among-nonempty"), vals(
+			WMapBytes{M: map[string][]byte{"a": {1, 2, 3}, "b": {}, "c": {4}, "d": {}, "e": {5, 6}, "f": {}, "g": {7}, "h": {}}, L: [][]byte{{1}, {}, {2, 3}, {}}},
+			WMapBytes{M: map[string][]byte{"x": {}, "y": {9, 9}}, L: [][]byte{{}, {}}})},
+		{staticOf[WTrailEmpty]("trailing-empty-record"), vals(WTrailEmpty{A: 1}, WTrailEmpty{A: 2}, WTrailEmpty{A: 3})},
+		{staticOf[WTrailEmptySlice]("trailing-empty-items"), vals(WTrailEmptySlice{A: "x", E: make([]struct{}, 3)}, WTrailEmptySlice{A: "y"}, WTrailEmptySlice{A: "z", E: make([]struct{}, 70)})},
+		{staticOf[WMapWide]("map-values-wider-than-128-bytes"), vals(
+			WMapWide{M: map[string]wide17{"a": {A: 1, Q: 17}, "b": {B: 2, P: 16}, "c": {}}, Z: 5},
+			WMapWide{M: map[string]wide17{"k": {1, 2, 3, 4, 5, 6, 7, 8, 9, 10, 11, 12, 13, 14, 15, 16, 17}}, Z: 6})},
+		{staticOf[WOddSize]("odd-size-optional-tail"), vals(WOddSize{1, 10, 7}, WOddSize{2, 20, 0}, WOddSize{3, 30, 9}, WOddSize{4, 40, 0})},
+		{staticOf[WOddSizePtr]("odd-size-optional-tail-in-bank"), func(c *driverCtx) []reflect.Value {
+			type q = struct {
+				X int16 `json:"x,omitempty"`
+				Y bool  `json:"y,omitempty"`
+				Z int16 `json:"z,omitempty"`
+			}
+			var out []WOddSizePtr
+			for i := 0; i < 12; i++ {
+				v := WOddSizePtr{P: &WOddSize{int32(i), int32(i * 10), 0}, Q: &q{}}
+				if i%2 == 0 {
+					v.P.C, v.Q.X, v.Q.Y, v.Q.Z = int32(100+i), int16(i+1), true, int16(-i-1)
+				}
+				out = append(out, v)
+			}
+			return vals(out...)(c)
+		}},
+		{staticOf[WPtrTimes]("several-time-pointers"), func(c *driverCtx) []reflect.Value {
+			t1 := time.Date(2021, 3, 4, 5, 6, 7, 8000, time.FixedZone("", 3600))
+			t2 := time.Date(1999, 12, 31, 23, 59, 59, 0, time.UTC)
+			t3 := time.Date(2038, 1, 19, 3, 14, 8, 999999000, time.FixedZone("", -5*3600))
+			n1, n2, ns := null.TimeFrom(t2), null.TimeFrom(t3), null.StringFrom("str")
+			return vals(WPtrTimes{&t1, &t2, &n1, &n2, &ns, &t3}, WPtrTimes{A: &t3, C: &n2}, WPtrTimes{&t2, &t1, &n2, &n1, &ns, &t1})(c)
+		}},
 		{staticOf[WTwice]("struct-twice"), vals(WTwice{SInner{1, "a"}, SInner{2, "b"}})},
 	}
 }
